@@ -2221,7 +2221,79 @@ theorem sites_match_model :
     AITB.Gen.C01.greedyTableSites = ["retvalSA", "rowLoop", "wrapRow", "fillRow", "ret", "bufferIsA"] ∧
     AITB.Gen.C01.toleranceSites = ["smallAbsLe", "differentIsNotEqual", "generalSmallOrRelMin"] ∧
     AITB.Gen.C01.makeSites = ["makeQZero", "makeVFZeroActionsS", "bellmanOperatorWrapsInplace"] ∧
+    AITB.Gen.C01.viStartSites = ["sizeOfParam", "neS", "defaultZero", "else", "copyParam", "v1NotReadBefore"] ∧
+    AITB.Gen.C01.setterSites = ["viTolThrowsNeg", "viTolAssign", "viHorizon", "viParam", "peTolThrowsNeg", "peTolAssign"] ∧
     AITB.Gen.C01.piSites = ["eval", "greedyOfQfun", "matrix0", "label", "evalP", "warm", "qfunGetsQ", "newMatrix", "diffSmall", "moveMatrix", "goto", "ret"] := by decide
+
+/-! ## the solver object across calls: no answer depends on earlier calls or on the moved-from internal vector -/
+
+def VIObj.SameParams (o o' : VIObj) : Prop := o.tol = o'.tol ∧ o.horizon = o'.horizon ∧ o.vParam = o'.vParam
+
+theorem VIObj.run_sameParams : ∀ (es : List VIEvent) (o o' : VIObj), VIObj.SameParams o o' →
+    VIObj.SameParams (o.run es) (o'.run (es.filter VIEvent.isSetter)) := by
+  intro es
+  induction es with
+  | nil => intro o o' h; exact h
+  | cons e es ih =>
+    intro o o' h
+    obtain ⟨h1, h2, h3⟩ := h
+    cases e with
+    | setTolerance x =>
+      simp only [List.filter, VIEvent.isSetter, VIObj.run]
+      apply ih
+      simp only [VIObj.step]
+      by_cases hx : x < 0
+      · simp only [hx, if_true]; exact ⟨h1, h2, h3⟩
+      · simp only [hx, if_false]; exact ⟨rfl, h2, h3⟩
+    | setHorizon x =>
+      simp only [List.filter, VIEvent.isSetter, VIObj.run]
+      apply ih
+      exact ⟨h1, rfl, h3⟩
+    | setValueFunction x =>
+      simp only [List.filter, VIEvent.isSetter, VIObj.run]
+      apply ih
+      exact ⟨h1, h2, rfl⟩
+    | call m rep j =>
+      simp only [List.filter, VIEvent.isSetter, VIObj.run]
+      apply ih
+      exact ⟨h1, h2, h3⟩
+
+/-- **viObj_history.**  For every history of setter calls and solver calls (on any models, of any sizes, leaving anything behind in the
+    moved-from `v1_`), the next `operator()(m)` returns what a fresh object with the same setter history returns: `valueIteration` of the
+    current parameters.  (This is what the harness's object-reuse lines test against the real class.) -/
+theorem viObj_history (o o' : VIObj) (hp : VIObj.SameParams o o') (es : List VIEvent) (m : MDP) (rep : Rep) (j j' : VF) :
+    ((o.run es).step (.call m rep j)).2 = ((o'.run (es.filter VIEvent.isSetter)).step (.call m rep j')).2 := by
+  obtain ⟨h1, h2, h3⟩ := VIObj.run_sameParams es o o' hp
+  simp only [VIObj.step, h1, h2, h3]
+
+/-- a rejected `setTolerance` leaves the tolerance nonnegative: the invariant `0 ≤ tolerance_` holds along every history -/
+theorem viObj_tol_nonneg : ∀ (es : List VIEvent) (o : VIObj), 0 ≤ o.tol → 0 ≤ (o.run es).tol := by
+  intro es
+  induction es with
+  | nil => intro o h; exact h
+  | cons e es ih =>
+    intro o h
+    simp only [VIObj.run]
+    apply ih
+    cases e with
+    | setTolerance x =>
+      simp only [VIObj.step]
+      by_cases hx : x < 0
+      · simp only [hx, if_true]; exact h
+      · simp only [hx, if_false]; exact not_lt.mp hx
+    | setHorizon x => exact h
+    | setValueFunction x => exact h
+    | call m rep j => exact h
+
+/-- the default-constructed start (`ValueFunction{}`: no values) is the all-zero start, for every model with at least one state -/
+theorem vi_empty_start_is_default (m : MDP) (rep : Rep) (hS : 0 < m.S) (h : Nat) (tol : Rat) (acts : Array Nat) :
+    valueIteration m rep h tol (some ⟨#[], acts⟩) = valueIteration m rep h tol none := by
+  have e : acceptWarm m.S ⟨#[], acts⟩ = makeVF m.S := by
+    unfold acceptWarm
+    have : ((#[] : Vec).size != m.S) = true := by
+      simp only [Array.size_empty, bne_iff_ne, ne_eq]; omega
+    simp only [this, if_true]
+  simp only [valueIteration, e]
 
 /-! ## the hypotheses are satisfiable: a concrete non-trivial MDP (2 states, 2 actions, negative reward, self-loop) -/
 
@@ -2261,5 +2333,9 @@ example : useTolerance 0 = false := by
   norm_num [useTolerance, checkDifferentSmall, checkEqualSmall, absR, AITB.Gen.equalToleranceSmall]
 example : useTolerance (1/1000) = true := by
   norm_num [useTolerance, checkDifferentSmall, checkEqualSmall, absR, AITB.Gen.equalToleranceSmall]
+
+/-- a history with a rejected setter, a call that leaves junk behind, and an accepted setter (test on literals) -/
+example : ((⟨0, 3, ⟨#[], #[]⟩, ⟨#[], #[]⟩⟩ : VIObj).run [.setTolerance (-1), .setHorizon 5, .call exMDP .eigen ⟨#[7], #[]⟩, .setTolerance (1/4)]).tol = 1/4 := by
+  norm_num [VIObj.run, VIObj.step]
 
 end AITB.MDP
